@@ -5,7 +5,7 @@ From FV Require Import Core.Syntax.
 Import ListNotations.
 Local Open Scope Z_scope.
 
-Inductive value := VInt (t : ity) (v : Z) | VBool (b : bool) | VUnit.
+Inductive value := VInt (t : ity) (v : Z) | VBool (b : bool) | VUnit | VStruct (sid : nat) (fs : list Z).
 
 (* printed item *)
 Inductive item := OInt (v : Z) | OBool (b : bool).
@@ -62,7 +62,15 @@ Definition declare (x : nat) (v : value) (e : env) : env :=
   end.
 
 Definition item_of (v : value) : option item :=
-  match v with VInt _ z => Some (OInt z) | VBool b => Some (OBool b) | VUnit => None end.
+  match v with VInt _ z => Some (OInt z) | VBool b => Some (OBool b) | VUnit | VStruct _ _ => None end.
+
+(* replace the k-th element of a list (None if out of range) *)
+Fixpoint set_nth (k : nat) (z : Z) (l : list Z) : option (list Z) :=
+  match k, l with
+  | O, _ :: r => Some (z :: r)
+  | S k', x :: r => match set_nth k' z r with Some r' => Some (x :: r') | None => None end
+  | _, [] => None
+  end.
 
 (* MIN / -1 and MIN % -1: for the 8- and 16-bit types the quotient 2^(N-1) simply wraps to MIN (and the remainder
    is 0) like every other result; for the 32- and 64-bit types the machine division instruction faults (x86 idiv,
@@ -106,6 +114,7 @@ Fixpoint bind_params (ps : list (nat * ty)) (vs : list value) : option scope :=
 
 (* expressions and statements, parameterised by the meaning of calls (callf) and the loop bound k *)
 Section Exec.
+Variable structs : structs_t.
 Variable callf : nat -> list value -> list line -> res value.
 
 Fixpoint eval (e : expr) (en : env) (out : list line) {struct e} : res value :=
@@ -158,6 +167,27 @@ Fixpoint eval (e : expr) (en : env) (out : list line) {struct e} : res value :=
          | [] => callf g (rev acc) out
          | e1 :: r => bind (eval e1 en out) (fun v out => evals r (v :: acc) out)
          end) es [] out
+  | EStructLit sid es =>
+      (fix flds (es : list expr) (acc : list Z) (out : list line) {struct es} : res value :=
+         match es with
+         | [] => Ok (VStruct sid (rev acc)) out
+         | e1 :: r => bind (eval e1 en out) (fun v out =>
+                        match v with VInt _ z => flds r (z :: acc) out | _ => Wrong end)
+         end) es [] out
+  | EField a k =>
+      bind (eval a en out) (fun va out =>
+        match va with
+        | VStruct sid fs =>
+            match nth_error structs sid with
+            | Some fts =>
+                match nth_error fts k, nth_error fs k with
+                | Some t, Some z => Ok (VInt t z) out
+                | _, _ => Wrong
+                end
+            | None => Wrong
+            end
+        | _ => Wrong
+        end)
   end.
 
 Definition pop_scope (r : env * flow) : env * flow := (tl (fst r), snd r).
@@ -173,6 +203,16 @@ Fixpoint exec (k : nat) (s : stmt) (en : env) (out : list line) {struct s} : res
   | SLet x _ e => bind (eval e en out) (fun v out => Ok (declare x v en, FNormal) out)
   | SAssign x e => bind (eval e en out) (fun v out =>
                      match update x v en with Some en' => Ok (en', FNormal) out | None => Wrong end)
+  | SAssignField x k e =>
+      bind (eval e en out) (fun v out =>
+        match v, lookup x en with
+        | VInt _ z, Some (VStruct sid fs) =>
+            match set_nth k z fs with
+            | Some fs' => match update x (VStruct sid fs') en with Some en' => Ok (en', FNormal) out | None => Wrong end
+            | None => Wrong
+            end
+        | _, _ => Wrong
+        end)
   | SIf c a b => bind (eval c en out) (fun vc out =>
                    match vc with
                    | VBool true => bind (exec k a ([] :: en) out) (fun r out => Ok (pop_scope r) out)
@@ -234,6 +274,7 @@ Fixpoint exec (k : nat) (s : stmt) (en : env) (out : list line) {struct s} : res
 End Exec.
 
 Section WithProg.
+Variable structs : structs_t.
 Variable p : prog.
 
 (* call function f with argument values; fuel decreases at every call; a loop runs at most `fuel` iterations *)
@@ -247,7 +288,7 @@ Fixpoint call (fuel : nat) (f : nat) (args : list value) (out : list line) {stru
       match bind_params (fparams fd) args with
       | None => Wrong
       | Some sc =>
-        bind (exec (call fuel') fuel' (fbody fd) [sc] out) (fun r out =>
+        bind (exec structs (call fuel') fuel' (fbody fd) [sc] out) (fun r out =>
           match snd r with
           | FReturn v => Ok v out
           | FNormal => Ok VUnit out
